@@ -224,6 +224,16 @@ def _next_mtime():
     return _mtime_ns[0]
 
 
+# ... and strictly decreasing ones, all older than anything a file system hands out today: an outside writer that
+# restores a backup with preserved timestamps (cp -p, rsync -t, an archive) or whose clock is behind
+_old_mtime_ns = [1_000_000_000 * 10**9]
+
+
+def _next_old_mtime():
+    _old_mtime_ns[0] -= 10**9
+    return _old_mtime_ns[0]
+
+
 # --------------------------------------------------------------------------------------
 # Resources
 # --------------------------------------------------------------------------------------
@@ -263,11 +273,12 @@ class FileResource:
         except FileNotFoundError:
             return None
 
-    def ext_write(self, value):
-        """Outside writer: rewrite in place, then push mtime strictly beyond all earlier ones."""
+    def ext_write(self, value, older=False):
+        """Outside writer: rewrite in place, then push mtime strictly beyond all earlier ones (older=True: strictly
+        BELOW every mtime seen so far - a restored backup)."""
         with open(self.path, "wb") as f:
             f.write(dumps(value))
-        t = _next_mtime()
+        t = _next_old_mtime() if older else _next_mtime()
         os.utime(self.path, ns=(t, t))
 
     def snapshot(self):
@@ -281,6 +292,44 @@ class FileResource:
     def make(self, clsname, **kw):
         return cls(clsname)(filename=self.path, **kw)
 
+    def make_debris(self, clsname, content):
+        """Let a real first save of `content` die (os._exit) at the moment it is about to rename/replace its
+        temporary file into place; whatever it had written next to the (still missing) target stays behind."""
+        before = set(os.listdir(os.path.dirname(self.path)))
+        pid = os.fork()
+        if pid == 0:
+            try:
+                def die(*a, **k):
+                    os._exit(0)
+                os.replace = os.rename = os.link = die
+                o = cls(clsname)(filename=self.path)
+                if isinstance(content, dict):
+                    o.update(content)
+                else:
+                    o.extend(content)
+            finally:
+                os._exit(1)
+        os.waitpid(pid, 0)
+        if os.path.exists(self.path):
+            os.unlink(self.path)  # a save that does not go through a rename: nothing to leave behind
+        self.debris = sorted(set(os.listdir(os.path.dirname(self.path))) - before)
+
+    def dir_snapshot(self):
+        """The target plus every file that appeared next to it since this resource exists (crash debris, temp
+        files): name, inode, mtime, size, bytes of each."""
+        d = os.path.dirname(self.path)
+        names = set(getattr(self, "debris", ())) | set(self.strays()) | {os.path.basename(self.path)}
+        out = []
+        for n in sorted(names):
+            p = os.path.join(d, n)
+            try:
+                st = os.stat(p)
+                with open(p, "rb") as f:
+                    out.append((n, st.st_ino, st.st_mtime_ns, st.st_size, f.read()))
+            except FileNotFoundError:
+                out.append((n, None))
+        return tuple(out)
+
     def strays(self):
         """Temp files left next to the target."""
         d, n = os.path.split(self.path)
@@ -291,7 +340,7 @@ class FileResource:
             os.unlink(self.path)
         except FileNotFoundError:
             pass
-        for s in self.strays():
+        for s in list(self.strays()) + list(getattr(self, "debris", ())):
             try:
                 os.unlink(os.path.join(os.path.dirname(self.path), s))
             except FileNotFoundError:
@@ -520,9 +569,30 @@ class ZarrResource:
         pass
 
 
+class Debris:
+    """Initial state 'the file is missing, but a first save of `content` crashed just before its atomic replace':
+    whatever the library had put next to the target at that moment is still lying there."""
+
+    def __init__(self, content):
+        self.content = content
+
+    def __repr__(self):
+        return "Debris(%r)" % (self.content,)
+
+    def __eq__(self, other):
+        return isinstance(other, Debris) and other.content == self.content
+
+    def __hash__(self):
+        return hash(repr(self))
+
+
 def resource_for(clsname, initial=ABSENT):
     fam = family_of(clsname)
     if fam in JSON_FAMILIES:
+        if isinstance(initial, Debris):
+            res = FileResource(ABSENT)
+            res.make_debris(clsname, initial.content)
+            return res
         return FileResource(initial)
     if fam == "Redis":
         return RedisResource(initial)
